@@ -339,6 +339,9 @@ def malformed_rows(tier, seed=0):
         for k in ("nan", "inf", "neginf"):
             for cfg in ("hiding_callable", "valid_matrix"):
                 yield {"cls": cls, "kind": k, "config": cfg}
+    # an option that other estimators document but this one does not, on data whose shape would let it through
+    # (square data looks like a Gram matrix)
+    yield {"cls": "KernelRIM", "kind": "undocumented_option_square_data"}
 
 
 def _hiding(two_rows=False):
@@ -374,6 +377,15 @@ def _configured(cls, K, cfg):
 
 def oracle_malformed(case):
     cls, kind = case["cls"], case["kind"]
+    if kind == "undocumented_option_square_data":
+        Xs = small_data(6, 6)
+        Xs = Xs @ Xs.T  # square, symmetric, positive semi-definite: indistinguishable from a kernel matrix
+        est = E.CLASSES[cls](n_clusters=2, max_iter=1, base_kernel="precomputed")
+        label = "KernelRIM(base_kernel='precomputed').fit on square data"
+        expect(label, False, lambda: est.fit(Xs))
+        if hasattr(est, "labels_"):
+            raise Violation(f"{label}: rejected but a model was trained")
+        return {"nontrivial": True, "classes": [kind]}
     X = small_data(8, 3)
     K = 3
     bad = {"nan": lambda: np.where(np.arange(24).reshape(8, 3) == 7, np.nan, X), "inf": lambda: np.where(np.arange(24).reshape(8, 3) == 5, np.inf, X),
